@@ -501,6 +501,7 @@ type FSMOpts struct {
 	SnapPreUs     int
 	RestoreUs     int
 	Seed          int64
+	NoSnap        func(node string) bool // nodes whose application never asks for a snapshot (policies may differ between nodes)
 }
 
 var fsmIDs int64
@@ -626,6 +627,9 @@ func (f *FSM) Restore(r io.Reader) error {
 }
 
 func (f *FSM) NeedSnapshot(logSize int) bool {
+	if f.opts.NoSnap != nil && f.opts.NoSnap(f.c.Node) {
+		return false
+	}
 	return f.opts.SnapThreshold > 0 && logSize >= f.opts.SnapThreshold
 }
 
